@@ -235,7 +235,7 @@ mutual
             subst hc0
             have hn := hadj hcons
             simp only [noAdjacentFText, Bool.and_eq_true, Bool.not_eq_true', Bool.and_eq_false_iff] at hn
-            rw [← erase_value, ht.erase, treeOfContent_isText]
+            rw [← ffx_erase_value, ht.erase, treeOfContent_isText]
             rcases hn.1 with h1 | h1
             · exact h1
             · rw [hc0t] at h1; cases h1)
@@ -282,8 +282,8 @@ theorem topDownDocument_spec (f : Forest) (d : FDocument) (hg : Good f)
   have hdnm : dn ∉ handlesList f.roots := fun hm => Nat.lt_irrefl _ (hg.below dn hm)
   have hget1 : f1.get? dn = some docleaf := by
     show findList? dn (f.roots ++ [docleaf]) = some docleaf
-    rw [findList?_append_of_not_mem _ _ _ hdnm]
-    exact findList?_cons_self docleaf []
+    rw [ffx_findList?_append_of_not_mem _ _ _ hdnm]
+    exact ffx_findList?_cons_self docleaf []
   obtain ⟨ts, hts, hl⟩ := topDownList_spec d.items f1 dn docleaf hg1 hget1 (Or.inr rfl)
     (items_wfList d _ hwf) (fun _ => noAdjacentFText_of_no_text _ (items_no_text d))
     (by intro _ _ _ _ k hk; simp [docleaf, HTree.kids] at hk)
